@@ -514,6 +514,7 @@ func genLifePairs(seed int64, n int, tier string, w *bufio.Writer) {
 		{"selffull", "keepalive", "s"}, {"outfull", "close", "t"}, {"infull", "disconnect", "t"}, {"cross", "keepalive", "s"},
 		{"cross", "keepalive", "t"}, {"outfull", "disconnect", "t"}, {"outfull", "keepalive", "t"}, {"infull", "protoerr", "t"},
 		{"infull", "oversize", "t"}, {"infull", "keepalive", "t"}, {"outfull", "protoerr", "t"}, {"outfull", "oversize", "t"},
+		{"selffull", "halfclose", "s"}, {"cross", "halfclose", "s"}, {"infull", "halfclose", "t"},
 	}
 	emitScns(w, rand.New(rand.NewSource(seed)), n, all, all)
 }
